@@ -162,6 +162,46 @@ def _impl(tier, seed, search):
                 if ok: L.close('Twist2:compose(special)', r[0], r[1], 1e-7, max(1.0, geom.tmag(r[1])), inps, what='exp(X*Y) differs from exp(X) exp(Y) for planar twists with a small or cancelling net rotation', sig='Twist2:compose:special')
             ok, r = L.noraise('Twist2:inverse', lambda: (m2(u1) @ m2(u1.inv()), np.eye(3)), inp, 'Twist2.inv()')
             if ok: L.close('Twist2:inverse', r[0], r[1], 1e-7, max(1.0, geom.tmag(m2(u1))), inp)
+        # the laws on sequences: products (M x 1, 1 x M, M x M), powers and inverses of multi-valued objects are the single-valued ones, value by value
+        if i % 4 == 1:
+            def rep(X):
+                # a representation in which values can be compared: matrix of the motion (twists: the motion they generate; quaternions: the rotation)
+                nm = type(X).__name__
+                if nm.startswith('Twist'): return np.asarray(X.exp().A, float)
+                if nm == 'UnitQuaternion': return np.asarray(X.R, float)
+                return np.asarray(X.A, float)
+            mks = dict(classes)
+            mks['UnitQuaternion'] = lambda: UnitQuaternion(inputs.unitq(g))
+            mks['Twist3'] = lambda: Twist3(np.r_[tr(g, -3, 1), inputs.unit_axis(g) * float(g.uniform(0.1, 1.2))])
+            mks['Twist2'] = lambda: Twist2(np.r_[tr(g, -3, 1)[:2], float(g.uniform(-1.2, 1.2))])
+            for cname, mk in mks.items():
+                M_ = int(g.integers(2, 5)); xs = [mk() for _ in range(M_)]; ys = [mk() for _ in range(M_)]; y1 = mk()
+                cls_ = type(y1); Xm = cls_([x_ for x_ in xs]) if cname not in ('UnitQuaternion',) else UnitQuaternion([x_.vec for x_ in xs])
+                Ym = cls_([y_ for y_ in ys]) if cname not in ('UnitQuaternion',) else UnitQuaternion([y_.vec for y_ in ys])
+                tol_ = 1e-7 if cname.startswith('Twist') else 1e-9
+                forms = [('M*1', lambda: Xm * y1, [x_ * y1 for x_ in xs]), ('1*M', lambda: y1 * Xm, [y1 * x_ for x_ in xs]), ('M*M', lambda: Xm * Ym, [x_ * y_ for x_, y_ in zip(xs, ys)]),
+                         ('inv', lambda: Xm.inv(), [x_.inv() for x_ in xs])]
+                if not cname.startswith('Twist'):
+                    for n_ in (2, 3, -1, -2, 0): forms.append((f'**{n_}', (lambda n_: lambda: Xm ** n_)(n_), [x_ ** n_ for x_ in xs]))
+                    forms.append(('M/1', lambda: Xm / y1, [x_ / y1 for x_ in xs])); forms.append(('1/M', lambda: y1 / Xm, [y1 / x_ for x_ in xs]))
+                for fn_, call_, want_ in forms:
+                    inp_ = dict(cls=cname, form=fn_, M=M_)
+                    ok, r = L.noraise(f'{cname}[M]:{fn_}', call_, inp_, f'multi-valued {cname} {fn_}', sig=f'multi:{cname}:{fn_}:raises')
+                    if not ok: continue
+                    L.check(f'{cname}[M]:{fn_}:len', len(r) == M_, inp_, f'multi-valued {cname} {fn_} returned {len(r)} values for {M_}', sig=f'multi:{cname}:{fn_}')
+                    if len(r) == M_:
+                        for k_ in range(M_):
+                            w_ = rep(want_[k_]); L.close(f'{cname}[M]:{fn_}', rep(r[k_]), w_, tol_, max(1.0, geom.tmag(w_) if w_.shape[0] > 2 and cname in ('SE2', 'SE3', 'Twist2', 'Twist3') else 1.0),
+                                                         dict(inp_, k=k_), what=f'value {k_} of multi-valued {cname} {fn_} differs from the single-valued result', sig=f'multi:{cname}:{fn_}')
+        # twist compositions whose net rotation is exactly a half turn (the end of the logarithm's range), general axes
+        if i % 10 == 3:
+            axh = inputs.unit_axis(g) if g.random() < 0.3 else (lambda v_: v_ / np.linalg.norm(v_))(g.normal(size=3))
+            th1 = float(g.uniform(0.2, math.pi - 0.2))
+            for sa, sb in ((Twist3(np.r_[tr(g, -3, 1), axh * math.pi]), Twist3()), (Twist3(np.r_[tr(g, -3, 1), axh * th1]), Twist3(np.r_[tr(g, -3, 1), axh * (math.pi - th1)])),
+                           (Twist3(), Twist3(np.r_[0, 0, 0, axh * math.pi]))):
+                inph = dict(S1=sa.S, S2=sb.S)
+                ok, r = L.noraise('Twist3:compose(half turn)', lambda: (np.asarray((sa * sb).exp().A, float), np.asarray(sa.exp().A, float) @ np.asarray(sb.exp().A, float)), inph, 'Twist3 * Twist3 with a net half turn')
+                if ok: L.close('Twist3:compose(half turn)', r[0], r[1], 1e-7, max(1.0, geom.tmag(r[1])), inph, what='exp(X*Y) differs from exp(X) exp(Y) when the net rotation is a half turn', sig='Twist3:compose')
         # random expression trees evaluated by the class operators vs plain numpy
         if i % 3 == 0:
             for cname, mk in classes:
